@@ -17,7 +17,7 @@ import fsic
 from fsic.exceptions import ParserError, SymbolError
 
 from .. import programs, symrec
-from ..core.runner import Acc, guard, CaseTimeout
+from ..core.runner import Acc, guard, CaseTimeout, robust
 
 ID = 'C01'
 LEVEL = 'exploration'
@@ -131,6 +131,7 @@ def feature_key(p):
     return 'general'
 
 
+@robust(1)
 def check_program(p):
     """Returns (violations, outcome label)."""
     script = p.script()
